@@ -526,6 +526,7 @@ void random_cfg(Rng &rng, Cfg &cfg, bool wellformed) {
         if (rng.chance(1, 3)) { cfg.set("dec_swarm", (long) rng.below(1000000) + 1); cfg.set("dec_swarm_urlenc", rng.coin()); }
         if (rng.chance(1, 6)) cfg.set("cfg_copy", 1);
         if (rng.chance(1, 10)) cfg.set("null_ts", 1);
+        if (rng.chance(1, 8)) { static const long HL[] = {0, 1, 4, 16, 64}; cfg.set("hdr_limit", HL[rng.below(5)]); }   // the cap on the number of header fields per message
         if (rng.chance(1, 6)) { static const long GB[] = {16, 61, 256, 1024, 8191}; cfg.set("gzip_buf", GB[rng.below(5)]); }   // tuning knob: the buffer-full paths run for small bodies too
         if (rng.chance(1, 8)) { static const long M[] = {0, 1024, 65536, 1048576}; cfg.set("lzma_memlimit", M[rng.below(4)]); }
         if (rng.chance(1, 8)) { static const long T[] = {1, 100, 100000, 10000000}; cfg.set("time_limit", T[rng.below(4)]); }
